@@ -170,6 +170,13 @@ def _phase_a(args):
 
 # ----------------------------------------------------------------------------- phase B: one fault point
 
+def branch_op(o):
+    """a git operation of the job that the model has: one that touches branches.  The push of the archive tag
+    of the delete_branch job moves no branch (the tag is outside the model's ref map); the faults at and inside
+    it are still injected into the real code and judged by the oracles."""
+    return o['kind'] == 'git' and (bool(o.get('refs')) or not o.get('tags'))
+
+
 def model_fault_line(hist, pt, ops):
     """the model question for this fault, or None when the event is outside what can be compared (the model lost
     track of the history before it, the event is several model items, a re-submitted job)"""
@@ -180,11 +187,13 @@ def model_fault_line(hist, pt, ops):
         return None
     from .histories import ref_code
     before = [it for m in sorted(hist['items']) if m < n for it in hist['items'][m]]
-    gits = [k for k, o in enumerate(ops) if o['kind'] == 'git']
+    gits = [k for k, o in enumerate(ops) if branch_op(o)]
     if pt['kind'] == 'crash':
         f = 'crash %d' % sum(1 for k in gits if k < pt['k'])
     else:
         if pt['ref'].startswith('refs/tags/'):
+            return None
+        if pt['k'] not in gits:
             return None
         f = 'reject %d %s' % (gits.index(pt['k']), ref_code(pt['ref']))
     return 'C02 %s;%s' % (f, ';'.join([hist['init_item']] + before + hist['items'][n]))
@@ -246,7 +255,7 @@ def run_fault(hist, pt, use_model, base):
                 res['model'] = {'line': line, 'error': ans}
             else:
                 nops, kinds, mk = parse_model_fault(ans)
-                real_git = [o for o in want_ops if o['kind'] == 'git']
+                real_git = [o for o in want_ops if branch_op(o)]
                 res['model'] = {'line': line, 'nops': nops, 'real_git_ops': len(real_git), 'kinds': mk,
                                 'agree': nops == len(real_git) and mk == obs['kinds']}
     return res
